@@ -54,7 +54,9 @@ Definition lcase_ok (l : lcase) : bool :=
 Record ccase := mkClosing { cearly : bool; creturned : bool; cunack : N }.
 Definition ccase_ok (c : ccase) : bool := negb (cearly c) && creturned c && (cunack c =? 1)%N.
 
-(* kind 3: a SLOW reader with a backlog on its way is taken over: answered, and the old connection decodes everything it was
+(* kinds 5-7: a Will with RETAIN=1 is also stored as retained message (at connection end / by the delay timer / at start-up);
+   kind 8: a DISCONNECT that is itself a protocol error does not suppress the Will (C11).
+   kind 3: a SLOW reader with a backlog on its way is taken over: answered, and the old connection decodes everything it was
    sent, a DISCONNECT "session taken over" last.
    a client that has stopped reading, so that the broker's writer is blocked in its Write, and then (kind 0) another
    connection takes the client id over, (1) the broker is stopped, (2) the keep-alive runs out: the CONNECT must be
